@@ -228,6 +228,7 @@ fn print_checks(ctx: &Ctx) {
         ("c := {\"k\": [1]}\nprint({\"a\": c, \"b\": {\"a\": c}, \"c\": [[c]]})\n", "{\n    \"a\": {\n        \"k\": [\n            1,\n        ],\n    },\n    \"b\": {\n        \"a\": {\n            \"k\": [\n                1,\n            ],\n        },\n    },\n    \"c\": [\n        [\n            {\n                \"k\": [\n                    1,\n                ],\n            },\n        ],\n    ],\n}\n"),
         ("e := []\nprint([e, [e, {}], {\"z\": e, \"a\": {}}])\n", "[\n    [\n    ],\n    [\n        [\n        ],\n        {\n        },\n    ],\n    {\n        \"a\": {\n        },\n        \"z\": [\n        ],\n    },\n]\n"),
         ("s := \"two\\nlines\"\nprint(s)\nprint([s])\n", "two\nlines\n[\n    two\n    lines,\n]\n"),
+        ("o := {\"two\\nlines\": 2, \"a\": [\"x\\ny\"]}\nprint(o)\nprint([o])\nprint({\"k\": [o]})\n", "{\n    \"a\": [\n        x\n        y,\n    ],\n    \"two\nlines\": 2,\n}\n[\n    {\n        \"a\": [\n            x\n            y,\n        ],\n        \"two\n    lines\": 2,\n    },\n]\n{\n    \"k\": [\n        {\n            \"a\": [\n                x\n                y,\n            ],\n            \"two\n        lines\": 2,\n        },\n    ],\n}\n"),
         ("print([[[[1]]]])\n", "[\n    [\n        [\n            [\n                1,\n            ],\n        ],\n    ],\n]\n"),
         ("x := [1]\ny := x\nprint([x, y, x])\nx[0] = 2\nprint([y, [x]])\n", "[\n    [\n        1,\n    ],\n    [\n        1,\n    ],\n    [\n        1,\n    ],\n]\n[\n    [\n        2,\n    ],\n    [\n        [\n            2,\n        ],\n    ],\n]\n"),
         ("print(-0)\nprint(007)\nprint(true)\nprint(null)\nprint(\"\")\n", "0\n7\ntrue\n<null>\n\n"),
